@@ -499,6 +499,19 @@ theorem lock_gpts_protects (g : Grid) (op : Op) (hl : g.lockGpts = true) (hs : g
         · exact adjustSampling_gpts _ _ _)]
       exact adjustExtent_gpts _ _ _
 
+/-- **`lock_gpts` over histories**: no sequence of assignments (any values, exceptions caught) changes locked, defined gpts -/
+theorem lock_gpts_protects_history (ops : List Op) : ∀ (g : Grid), g.lockGpts = true → g.lockSampling = false →
+    g.gpts.isSome = true → (run g ops).gpts = g.gpts := by
+  induction ops with
+  | nil => intro g _ _ _; rfl
+  | cons op ops ih =>
+    intro g hl hs hg
+    have h1 := lock_gpts_protects g op hl hs hg
+    have hf := step_frame g op
+    have := ih (step g op).1 (by rw [hf.2.2.2.1]; exact hl) (by rw [hf.2.2.2.2]; exact hs) (by rw [h1]; exact hg)
+    simp only [run, List.foldl_cons] at this ⊢
+    rw [this, h1]
+
 /-- **`lock_extent`** (the lock abTEM uses for potentials): with a defined extent and no other lock, an assignment
 leaves the extent untouched unless it is an assignment *to the extent* of a value that `numpy.allclose` accepts as
 equal to the current one (assigning `None` raises since fix 718fdf49). -/
@@ -700,6 +713,18 @@ theorem endpoint_single_point_consistent_counterexample :
         (step g op).1.sampling = some [d] → r = adjustExtentElt n d true) := by
   intro h
   have h1 := h ⟨1, [true], some [1], some [4], some [1/3], false, false, false⟩ (.setGpts (.scalar 1)) 1 1 0
+    (by decide +kernel) (by decide +kernel) (by decide +kernel) (by decide +kernel) (by decide +kernel)
+  revert h1; decide +kernel
+
+/-- `gpts = 0` is accepted (no positivity check in the setters): the assignment neither raises nor leaves the grid
+consistent — `_safe_divide` sets the sampling to 0 and the extent stays 1.  Outside the guard `gpts ≥ 1` of
+`consistent_preserved`; recorded as a known finding. -/
+theorem zero_gpts_consistent_counterexample :
+    ¬ (∀ (g : Grid) (op : Op) (r : Rat) (n : Int) (d : Rat), (step g op).2 = none →
+        (step g op).1.endpoint = [false] → (step g op).1.extent = some [r] → (step g op).1.gpts = some [n] →
+        (step g op).1.sampling = some [d] → r = adjustExtentElt n d false) := by
+  intro h
+  have h1 := h ⟨1, [false], some [1], some [4], some [1/4], false, false, false⟩ (.setGpts (.scalar 0)) 1 0 0
     (by decide +kernel) (by decide +kernel) (by decide +kernel) (by decide +kernel) (by decide +kernel)
   revert h1; decide +kernel
 
